@@ -493,7 +493,9 @@ def main_(argv):
                 base['%s|%s|%s' % (u['unit'], fn, lab)] = True
         os.makedirs(os.path.join(VERIF, 'baseline'), exist_ok=True)
         old = load_baseline() or {}
-        if pid != 'ALL':
+        if pid != 'ALL' or a.units:
+            # a partial run (one property, or selected units) only ever adds to / refreshes the committed baseline
+            old = {k: v for k, v in old.items() if k.split('|')[0] not in set(u['unit'] for u in units)} if a.units else old
             old.update(base)
             base = old
         json.dump(base, open(os.path.join(VERIF, 'baseline', 'obligations.json'), 'w'), indent=0, sort_keys=True)
